@@ -35,6 +35,37 @@ Section C10.
     (exists t, l = x :: t) /\ NoDup l /\ (forall y, In y l <-> reach (step teqb g) x y).
   Proof. exact (bfs_correct teqb teqb_spec). Qed.
 
+  (* connected_components IS the partition of the node list into the classes of reachability
+     along the adjacency the search reads, for every undirected graph state whose adjacency
+     query is symmetric and closed over the node list ... *)
+  Theorem C10_connected : forall (g : gstate) cs,
+    (forall u v, step teqb g u v -> step teqb g v u) ->
+    (forall u v, In u (g_nodes g) -> step teqb g u v -> In v (g_nodes g)) ->
+    connected_components teqb g = Ok cs ->
+    is_component_partition (g_nodes g) (reach (step teqb g)) cs.
+  Proof. exact (connected_components_partition teqb teqb_spec). Qed.
+
+  (* ... which an executable test decides (evaluated by the Run module on every case) *)
+  Theorem C10_connected_checked : forall (g : gstate) cs,
+    step_ok_b teqb g = true ->
+    connected_components teqb g = Ok cs ->
+    is_component_partition (g_nodes g) (reach (step teqb g)) cs.
+  Proof. exact (connected_components_checked teqb teqb_spec). Qed.
+
+  (* weakly_connected_components: classes of reachability along successors-or-predecessors *)
+  Theorem C10_weak : forall (g : gstate) cs,
+    (forall u v, wstep teqb g u v -> wstep teqb g v u) ->
+    (forall u v, In u (g_nodes g) -> wstep teqb g u v -> In v (g_nodes g)) ->
+    weakly_connected_components teqb g = Ok cs ->
+    is_component_partition (g_nodes g) (reach (wstep teqb g)) cs.
+  Proof. exact (weakly_connected_components_partition teqb teqb_spec). Qed.
+
+  Theorem C10_weak_checked : forall (g : gstate) cs,
+    wstep_ok_b teqb g = true ->
+    weakly_connected_components teqb g = Ok cs ->
+    is_component_partition (g_nodes g) (reach (wstep teqb g)) cs.
+  Proof. exact (weakly_connected_components_checked teqb teqb_spec). Qed.
+
   Theorem C10_node_component : forall (g : gstate) x s,
     node_connected_component teqb g x = Ok s ->
     directed (sp g) = false /\ NoDup s /\ (forall y, In y s <-> reach (step teqb g) x y).
